@@ -70,6 +70,12 @@ SetCC(mn) == Len(mn) > 3 /\ Take3(mn) = "SET" /\ CCOf("J" \o Drop3(mn)) # -1
 \* the second opcode byte of a 0F B6/B7/BE/BF instruction says whether the source is a byte (even) or a word (odd)
 SrcByteOp(bytes, bits) == LET np == NPrefix(bytes) IN Len(bytes) >= np + 2 /\ bytes[np + 2] % 2 = 0
 
+\* mnemonics that have no form without operands
+NeedsOperands == Alu2 \cup Shifts \cup Unary \cup DescTable \cup
+                 {"MOV", "IMUL", "PUSH", "POP", "IN", "OUT", "INT", "XCHG", "LEA", "LDS", "LES", "LSS", "LFS", "LGS", "MOVZX", "MOVSX", "ENTER",
+                  "LLDT", "LTR", "VERR", "VERW", "LMSW", "SLDT", "STR", "SMSW", "INVLPG", "BSWAP", "JMP", "CALL",
+                  "FRSTOR", "FSAVE", "FNSAVE", "FLDENV", "FSTENV", "FNSTENV", "FLDCW", "FSTCW", "FNSTCW", "FBLD", "FBSTP", "FILD", "FIST", "FISTP"}
+
 ShiftSame(a, b) == a = b \/ {a, b} = {"SHL", "SAL"}
 
 PushImmOK(b, v) == \/ SignExt(b, 4) = LE(v, 4)
@@ -98,6 +104,7 @@ Judged(s) ==
         \/ SetCC(mn) /\ k = 1
         \/ mn \in {"JMP", "CALL"} /\ k = 1 /\ s.ops[1].t \in {"r", "m"}
         \/ k = 0 /\ (mn \in NoOpJudged \/ FixedBytes(mn) # << >>)
+        \/ k = 0 /\ mn \in NeedsOperands          \* no such form exists: must be diagnosed (Denotes is FALSE for it)
   IN (\A j \in 1..k : s.ops[j].t # "txt") /\ forms      \* string / character operands: outside the model
 
 (***************************************************************************)
